@@ -121,6 +121,15 @@ example : ∃ s, run (init 1 1 true) [.cSendBegin 1, .cSendEnq, .cSendBegin 2, .
     s.cSend = some 2 ∧ step s .cSendEnq = none ∧ (step s .cSendRemote).map (·.2) = some [.ret .cs .eof] := by
   exact ⟨_, rfl, rfl, rfl, rfl⟩
 
+/-- **A send with room in the buffer completes on its own**, whatever the caller's receiving side is doing (a `RecvMsg`
+    or `Header()` parked on another goroutine included — `cRecv` is not consulted): the enqueue step is enabled and returns
+    nil under a live context. (The send and receive sides of the client stream share no lock in the model; the script
+    engine's `send-blocked-with-empty-buffer` oracle and the explorer hold the implementation to that.) -/
+theorem C05_send_with_room_completes (s : St) (m : Nat) (hp : s.cSend = some m) (hroom : s.req.length < s.capReq)
+    (hctx : s.ctx = none) :
+    ∃ s', step s .cSendEnq = some (s', [.ret .cs .ok]) ∧ s'.cSend = none ∧ s'.cRecv = s.cRecv := by
+  simp [step, hp, hroom, hctx]
+
 end InprocStream
 
 /-! ### the unary call (`Channel.Invoke`) -/
